@@ -391,8 +391,9 @@ func runC11(c *mon.Ctx) {
 		case 2:
 			n = 255 + r.IntN(3)
 		}
-		if c.Thorough() && k.Index%2000 == 7 {
-			n = 65535
+		if k.Index%2000 == 7 {
+			n = 65535 // the largest number of glyphs there can be
+			k.Class("glyphs:65535")
 		}
 		forms := glyfref.Forms{}
 		gs := make([]*c11glyph, n)
@@ -488,7 +489,7 @@ func runC11(c *mon.Ctx) {
 		k.Distinct("size-boundary", target, len(gs), k.Index)
 		c11check(c, k, gs, forms, total)
 	})
-	req := []string{"zero-contour-glyph", "simple-decoded", "composite-checked", "loca-format-0", "loca-format-1",
+	req := []string{"glyphs:65535", "zero-contour-glyph", "simple-decoded", "composite-checked", "loca-format-0", "loca-format-1",
 		"harness-loca-format-0", "harness-loca-format-1", "composite:instructions", "composite:no-instructions",
 		"form:repeat-0", "form:repeat-1", "form:repeat-n", "form:repeat-255", "composite:instructions-flag-not-on-last-component", "form:flag-literal", "form:overlap-bit", "size<=65535", "size>131070",
 		"form:delta=+32767", "form:delta=-32768", "form:coordinate-at-int16-limit", "composite:instructions>=256-bytes", "simple:instructions>=256-bytes"}
